@@ -161,6 +161,17 @@ CLAIMED = {
         "trusted: TLC; the right-continuous convention for the discontinuous third derivative at knots",
         "DESIGN.md 3 C14",
     ),
+    "C16": (
+        "spec/Loss.tla, spec/MC_Loss.tla, spec/Trace_Loss.tla",
+        "layer 1: exact rational values of pointwise losses (mask-aware mean, normalisation), global NCC, Dice and Tversky on small integer "
+        "images, with the axioms checked on the model by TLC; layer 2: the axioms (identical inputs, range, symmetry, intensity invariance, mask "
+        "handling, reductions, documented argument forms) as TLA+ predicates over recorded evaluations of EVERY loss incl. LCC/WLCC/MI/NMI, "
+        "validated by Trace_Loss",
+        "all (pair, mask, loss, reduction, norm) cases of the lattice for layer 1 incl. loss modules and target/weight forms; layer 2 on random "
+        "integer images in 2-D/3-D with N, C in {1, 2} and three mask shapes per loss",
+        "trusted: TLC, micro-unit encoding of recorded values (tolerance 3e-5); MI/NMI only relational",
+        "DESIGN.md 3 C16",
+    ),
     "C17": (
         "spec/Regulariser.tla, spec/MC_Regulariser.tla (on Deriv)",
         "energies (bending, curvature, diffusion, divergence, total variation, gradient, elasticity) as exact expressions of the analytic "
